@@ -12,6 +12,14 @@
 //!   hist   in = [max, enabled, initial names, ops, query ids]
 //!                                                  out = per op [sorted listing, [latest per query id]]
 //!   should in = [enabled, policy, after_save, node_index, is_barrier]   out = bool
+//!   sum    in = data                               out = [compute_checksum(data), the same call again]
+//!   tamper in = [fields (pipeline id as data), ops] out = per op the load outcome of the encoded file with
+//!                                                        that single alteration (child process, as `load`);
+//!                                                        ops: ["x", off, mask] | ["s", off, del, ins] | ["t", k];
+//!                                                        an "ok" outcome abbreviates id / checksum equal to
+//!                                                        the input's by null
+//! data   = a string | {"bytes": ..} | ["gen", seed, len] (63-bit LCG bytes) | ["ids", seed, len] (LCG
+//!          over a 32-letter alphabet) | ["rep", unit, count]
 //! fields = [pipeline_id, completed_node_index, timestamp, partition_count, checksum, exec_mode,
 //!           total_nodes, last_node_type, progress_percent]
 //! table  = [[string, {"bytes": sha256 digest}] ...] : values of the real `compute_checksum`
@@ -319,8 +327,154 @@ fn run(kind: &str, input: &Value) -> Value {
             let _ = std::fs::remove_dir_all(&dir);
             Value::Bool(r)
         }
+        "sum" => {
+            let Some(d) = data_of(input) else { return json!(["invalid"]) };
+            let h1 = compute_checksum(&d);
+            let h2 = compute_checksum(&d);
+            json!([h1, h2])
+        }
+        "tamper" => run_tamper(input).unwrap_or(json!(["invalid"])),
         _ => json!(["bad-kind"]),
     }
+}
+
+// ------------------------------------------------------------------ compact data, tamper
+const ID_ALPHABET: &[u8; 32] = b"abcdefghijklmnopqrstuvwxyz012:_9";
+fn lcg_bytes(seed: u64, len: usize) -> Vec<u8> {
+    let mut x = seed & ((1u64 << 63) - 1);
+    (0..len)
+        .map(|_| {
+            x = x.wrapping_mul(6364136223846793005).wrapping_add(1442695040888963407) & ((1u64 << 63) - 1);
+            ((x >> 32) & 255) as u8
+        })
+        .collect()
+}
+fn data_of(v: &Value) -> Option<Vec<u8>> {
+    const MAX: u64 = 1 << 22;
+    if let Some(s) = v.as_str() {
+        return Some(s.as_bytes().to_vec());
+    }
+    if v.is_object() {
+        return v["bytes"].as_array()?.iter().map(|b| b.as_u64().filter(|x| *x < 256).map(|x| x as u8)).collect();
+    }
+    let a = v.as_array()?;
+    if a.len() != 3 {
+        return None;
+    }
+    match a[0].as_str()? {
+        "gen" => {
+            let (seed, len) = (a[1].as_u64()?, a[2].as_u64()?);
+            (len <= MAX && seed < (1 << 62)).then(|| lcg_bytes(seed, len as usize))
+        }
+        "ids" => {
+            let (seed, len) = (a[1].as_u64()?, a[2].as_u64()?);
+            (len <= MAX && seed < (1 << 62))
+                .then(|| lcg_bytes(seed, len as usize).iter().map(|b| ID_ALPHABET[(b & 31) as usize]).collect())
+        }
+        "rep" => {
+            let u = data_of(&a[1])?;
+            let n = a[2].as_u64()?;
+            (n.checked_mul(u.len() as u64)? <= MAX).then(|| u.repeat(n as usize))
+        }
+        _ => None,
+    }
+}
+
+/// the wire image with the span (start, len) of every item, in wire order:
+/// 0 pid prefix, 1 pid, 2 cni, 3 ts, 4 pc, 5 cks prefix, 6 cks, 7 em prefix, 8 em, 9 tn,
+/// 10 lnt prefix, 11 lnt, 12 pp
+#[allow(clippy::too_many_arguments)]
+fn encode_raw(pid: &[u8], cni: u64, ts: u64, pc: u64, cks: &[u8], em: &[u8], tn: u64, lnt: &[u8], pp: u8)
+              -> (Vec<u8>, Vec<(usize, usize)>) {
+    let mut o = Vec::new();
+    let mut spans = Vec::new();
+    fn num(v: u64, o: &mut Vec<u8>, spans: &mut Vec<(usize, usize)>) {
+        let a = o.len();
+        varint(v, o);
+        spans.push((a, o.len() - a));
+    }
+    fn text(x: &[u8], o: &mut Vec<u8>, spans: &mut Vec<(usize, usize)>) {
+        num(x.len() as u64, o, spans);
+        spans.push((o.len(), x.len()));
+        o.extend_from_slice(x);
+    }
+    text(pid, &mut o, &mut spans);
+    num(cni, &mut o, &mut spans);
+    num(ts, &mut o, &mut spans);
+    num(pc, &mut o, &mut spans);
+    text(cks, &mut o, &mut spans);
+    text(em, &mut o, &mut spans);
+    num(tn, &mut o, &mut spans);
+    text(lnt, &mut o, &mut spans);
+    spans.push((o.len(), 1));
+    o.push(pp);
+    (o, spans)
+}
+
+fn run_tamper(input: &Value) -> Option<Value> {
+    let f = input[0].as_array()?;
+    if f.len() != 9 {
+        return None;
+    }
+    let pid = data_of(&f[0])?;
+    let cks = f[4].as_str()?.as_bytes().to_vec();
+    let (img, _) = encode_raw(&pid, f[1].as_u64()?, f[2].as_u64()?, f[3].as_u64()?, &cks,
+                              f[5].as_str()?.as_bytes(), f[6].as_u64()?, f[7].as_str()?.as_bytes(),
+                              u8::try_from(f[8].as_u64()?).ok()?);
+    let mut files = Vec::new();
+    for op in input[1].as_array()? {
+        let a = op.as_array()?;
+        let b = match (a.first()?.as_str()?, a.len()) {
+            ("x", 3) => {
+                let (off, mask) = (a[1].as_u64()? as usize, a[2].as_u64()?);
+                if off >= img.len() || mask > 255 {
+                    return None;
+                }
+                let mut b = img.clone();
+                b[off] ^= mask as u8;
+                b
+            }
+            ("s", 4) => {
+                let (off, del) = (a[1].as_u64()? as usize, a[2].as_u64()? as usize);
+                let ins = data_of(&a[3])?;
+                if off.checked_add(del)? > img.len() {
+                    return None;
+                }
+                let mut b = img[..off].to_vec();
+                b.extend_from_slice(&ins);
+                b.extend_from_slice(&img[off + del..]);
+                b
+            }
+            ("t", 2) => {
+                let k = a[1].as_u64()? as usize;
+                if k > img.len() {
+                    return None;
+                }
+                img[..k].to_vec()
+            }
+            _ => return None,
+        };
+        files.push(b);
+    }
+    let dir = fresh_dir();
+    let path = dir.join("checkpoint_x_1.bin");
+    let mut out = Vec::new();
+    for b in files {
+        std::fs::write(&path, &b).unwrap();
+        let mut o = load_in_child(&path);
+        // abbreviate the long strings of an accepted state that are exactly the input's
+        if o[0] == "ok" {
+            if o[1][0].as_str().map(str::as_bytes) == Some(&pid[..]) {
+                o[1][0] = Value::Null;
+            }
+            if o[1][4].as_str().map(str::as_bytes) == Some(&cks[..]) {
+                o[1][4] = Value::Null;
+            }
+        }
+        out.push(o);
+    }
+    let _ = std::fs::remove_dir_all(&dir);
+    Some(Value::Array(out))
 }
 
 // ------------------------------------------------------------------ generator helpers
@@ -504,12 +658,12 @@ fn rand_string(rng: &mut SplitMix64, max_bytes: usize) -> String {
     }
 }
 
-fn emit_load(em: &mut Emitter, file: Vec<u8>, extra: &[Vec<u8>], nontrivial: bool, tags: &[&str]) {
+fn emit_load(em: &mut Mix, file: Vec<u8>, extra: &[Vec<u8>], nontrivial: bool, tags: &[&str]) {
     let table = table_for(&file, extra);
     em.case("load", json!([{ "bytes": file }, table]), nontrivial, tags);
 }
 
-fn mutations(em: &mut Emitter, s: &St, all: bool, rng: &mut SplitMix64) {
+fn mutations(em: &mut Mix, s: &St, all: bool, rng: &mut SplitMix64) {
     let (img, prefixes) = s.encode();
     let base = [s.meta()];
     emit_load(em, img.clone(), &base, true, &["intact"]);
@@ -591,9 +745,38 @@ fn mutations(em: &mut Emitter, s: &St, all: bool, rng: &mut SplitMix64) {
 }
 
 // ------------------------------------------------------------------ generate
-fn generate(seed: u64, tier: Tier, em: &mut Emitter) {
+fn generate(seed: u64, tier: Tier, em0: &mut Emitter) {
     let thorough = tier == Tier::Thorough;
     let mut rng = SplitMix64::new(seed ^ 0xC12);
+    // the expensive cases (long files / long hash inputs) are prepared first and handed out evenly
+    // between the cheap ones, so that no judging shard gets all of them
+    let heavy = heavy_cases(seed, thorough);
+    let every = (7500 / heavy.len().max(1)).max(1);
+    let mut mix = Mix { em: em0, heavy: heavy.into(), since: 0, every };
+    let em = &mut mix;
+
+    // ---- 0. compute_checksum as an entry point of its own: every length 0..=200 (all padding
+    //         shapes: 55/56/63/64/65 mod 64), constant 0x00 / 0x80 / 0xFF data at the boundaries
+    for len in 0..=200u64 {
+        em.case("sum", json!(["gen", seed.wrapping_mul(977).wrapping_add(len) & 0xFFFF_FFFF, len]), true, &["sum", "every-length"]);
+    }
+    for len in [0u64, 1, 55, 56, 57, 63, 64, 65, 119, 120, 127, 128, 129, 191, 192, 193, 255, 256, 257] {
+        for unit in [0u8, 0x80, 0xFF] {
+            em.case("sum", json!(["rep", { "bytes": [unit] }, len]), true, &["sum", "constant"]);
+        }
+    }
+    for text in ["abc", "", "p:1:5:2", "abcdbcdecdefdefgefghfghighijhijkijkljklmklmnlmnomnopnopq"] {
+        em.case("sum", json!(text), true, &["sum", "known-answer"]);
+    }
+    // ---- 0b. real save + real load for EVERY id length a file name can hold (and the first that
+    //          it cannot), numbers of every width in the tail of the protected string
+    for len in 0..=238usize {
+        let pid: String = lcg_bytes(seed ^ 0x1D5 ^ len as u64, len).iter().map(|b| ID_ALPHABET[(b & 31) as usize] as char)
+            .map(|c| if c == ':' && len % 3 == 0 { 'x' } else { c }).collect();
+        let (cni, ts, pc) = TAILS[len % TAILS.len()];
+        let s = st(&pid, cni, ts, pc, "seq", 3, "n", 50);
+        em.case("rt", json!([s.fields(), [entry(&s.meta())]]), true, &["rt", "id-length"]);
+    }
 
     // ---- 1. round trips: extremes of every numeric field, boundary lengths of every string
     for &v in &EXTREMES {
@@ -949,6 +1132,299 @@ fn generate(seed: u64, tier: Tier, em: &mut Emitter) {
             }
         }
     }
+    em.flush();
+}
+
+// ------------------------------------------------------------------ heavy cases, evenly mixed in
+type Prepared = (String, Value, bool, Vec<String>);
+struct Mix<'a, 'b> {
+    em: &'a mut Emitter<'b>,
+    heavy: std::collections::VecDeque<Prepared>,
+    since: usize,
+    every: usize,
+}
+impl Mix<'_, '_> {
+    fn case(&mut self, kind: &str, input: Value, nontrivial: bool, tags: &[&str]) {
+        self.em.case(kind, input, nontrivial, tags);
+        self.since += 1;
+        if self.since >= self.every {
+            self.since = 0;
+            self.one_heavy();
+        }
+    }
+    fn one_heavy(&mut self) -> bool {
+        match self.heavy.pop_front() {
+            Some((kind, input, nt, tags)) => {
+                let t: Vec<&str> = tags.iter().map(String::as_str).collect();
+                self.em.case(&kind, input, nt, &t);
+                true
+            }
+            None => false,
+        }
+    }
+    fn flush(&mut self) {
+        while self.one_heavy() {}
+    }
+}
+
+/// numeric tails of the protected string: 1-byte / multi-byte varints, 6 .. 63 characters
+const TAILS: [(u64, u64, u64); 6] = [
+    (1, 5, 2),
+    (300, 1_700_000_000_000, 70000),
+    (u64::MAX, u64::MAX, u64::MAX),
+    (0, 0, 0),
+    (250, 251, 65536),
+    (9, 99_999_999_999_999_999, 1 << 32),
+];
+
+fn varint_vec(v: u64) -> Vec<u8> {
+    let mut o = Vec::new();
+    varint(v, &mut o);
+    o
+}
+fn nonminimal(v: u64, marker: u8) -> Vec<u8> {
+    let mut o = vec![marker];
+    match marker {
+        251 => o.extend_from_slice(&(v as u16).to_le_bytes()),
+        252 => o.extend_from_slice(&(v as u32).to_le_bytes()),
+        _ => o.extend_from_slice(&v.to_le_bytes()),
+    }
+    o
+}
+
+/// Alterations of ONE encoded state, every protected field and the checksum covered:
+/// (priority, op). Priority 0 ops are always kept, the others are sampled when the state is big.
+#[allow(clippy::too_many_arguments)]
+fn tamper_ops(pid: &[u8], nums: (u64, u64, u64), cks: &[u8], em: &[u8], tn: u64, lnt: &[u8], pp: u8,
+              dense: bool) -> Vec<(u8, Value)> {
+    let (img, sp) = encode_raw(pid, nums.0, nums.1, nums.2, cks, em, tn, lnt, pp);
+    let mut ops: Vec<(u8, Value)> = Vec::new();
+    // the unaltered file, the file with trailing junk
+    ops.push((0, json!(["t", img.len()])));
+    ops.push((0, json!(["s", img.len(), 0, { "bytes": [255, 0, 127] }])));
+    // ---- the numeric protected fields (the TAIL of the protected string): every bit of every byte,
+    //      byte overwrites, the whole field replaced by a neighbouring / extreme value
+    for (k, v) in [(2usize, nums.0), (3, nums.1), (4, nums.2)] {
+        let (a, n) = sp[k];
+        for i in a..a + n {
+            for bit in 0..8 {
+                ops.push((if bit == 0 { 0 } else { 1 }, json!(["x", i, 1u64 << bit])));
+            }
+            for nb in [0u8, 1, 250, 251, 252, 253, 254, 255] {
+                if nb != img[i] {
+                    ops.push((2, json!(["x", i, nb ^ img[i]])));
+                }
+            }
+        }
+        let mut repl: Vec<u64> = vec![v.wrapping_add(1), v.wrapping_sub(1), 0, 1, v / 10, v.wrapping_mul(10),
+                                      v ^ 1, v ^ (1 << 63), u64::MAX, 250, 251, 65535, 65536];
+        repl.sort_unstable();
+        repl.dedup();
+        for (j, r) in repl.iter().enumerate() {
+            if *r != v {
+                ops.push((if j < 2 { 0 } else { 1 }, json!(["s", a, n, { "bytes": varint_vec(*r) }])));
+            }
+        }
+        // the SAME value in a wider encoding is the same state: must still be accepted
+        for marker in [251u8, 252, 253] {
+            let fits = match marker {
+                251 => v <= 0xFFFF,
+                252 => v <= 0xFFFF_FFFF,
+                _ => true,
+            };
+            if fits && nonminimal(v, marker) != img[a..a + n] {
+                ops.push((1, json!(["s", a, n, { "bytes": nonminimal(v, marker) }])));
+            }
+        }
+    }
+    // two numeric fields exchanged / shifted (index <-> timestamp <-> partitions)
+    {
+        let (a, _) = sp[2];
+        let end = sp[4].0 + sp[4].1;
+        for (x, y, z) in [(nums.1, nums.0, nums.2), (nums.0, nums.2, nums.1), (nums.2, nums.1, nums.0),
+                          (nums.1, nums.2, nums.0)] {
+            if (x, y, z) != nums {
+                let mut b = varint_vec(x);
+                b.extend(varint_vec(y));
+                b.extend(varint_vec(z));
+                ops.push((1, json!(["s", a, end - a, { "bytes": b }])));
+            }
+        }
+    }
+    // ---- the pipeline id: its ends, every 64-byte boundary of the protected string, the start of
+    //      its last partial block; short ids completely
+    {
+        let (a, n) = sp[1];
+        let meta_len = n + format!(":{}:{}:{}", nums.0, nums.1, nums.2).len();
+        let mut pos: Vec<usize> = vec![0, 1, n.saturating_sub(2), n.saturating_sub(1), n / 2];
+        let mut k = 64;
+        while k <= n + 1 {
+            pos.extend([k - 1, k, k + 1]);
+            k *= 2;
+        }
+        let mut k = 64;
+        while k <= n + 1 {
+            pos.extend([k - 1, k]);
+            k += 64;
+        }
+        let last_block = meta_len / 64 * 64;
+        pos.extend([last_block.saturating_sub(1), last_block, last_block + 1]);
+        if n <= 70 || dense {
+            pos.extend(0..n.min(if dense { 300 } else { 70 }));
+        }
+        pos.retain(|p| *p < n);
+        pos.sort_unstable();
+        pos.dedup();
+        for (j, p) in pos.iter().enumerate() {
+            for (m, mask) in [1u8, 0x20, 0x80, 2, 4, 8, 0x10, 0x40].iter().enumerate() {
+                let pr = if m == 0 && (j % 7 == 0 || *p + 1 == n) { 0 } else if m < 3 { 1 } else { 2 };
+                ops.push((pr, json!(["x", a + p, mask])));
+            }
+        }
+        // the length prefix one off in both directions (shifts every later field)
+        let (pa, pn) = sp[0];
+        ops.push((0, json!(["s", pa, pn, { "bytes": varint_vec(n as u64 + 1) }])));
+        if n > 0 {
+            ops.push((0, json!(["s", pa, pn, { "bytes": varint_vec(n as u64 - 1) }])));
+        }
+        for marker in [251u8, 252, 253] {
+            if (marker != 251 || n <= 0xFFFF) && nonminimal(n as u64, marker) != img[pa..pa + pn] {
+                ops.push((1, json!(["s", pa, pn, { "bytes": nonminimal(n as u64, marker) }])));
+            }
+        }
+        for bit in 0..8 {
+            ops.push((2, json!(["x", pa, 1u64 << bit])));
+        }
+        // a digit moved across the id / index boundary: "ab1" index 2 <-> "ab" index 12 ...
+        if n > 0 {
+            let mut b = varint_vec(n as u64 - 1);
+            let last = pid[n - 1];
+            let moved = format!("{}{}", (last % 10), nums.0);
+            if let Ok(v) = moved.parse::<u64>() {
+                // the file keeps only n-1 id bytes; the op rewrites prefix and index around them, so
+                // it is two splices: expressed as one splice over the last id byte + index
+                let _ = &mut b;
+                ops.push((1, json!(["s", a + n - 1, 1 + sp[2].1, { "bytes": varint_vec(v) }])));
+            }
+        }
+    }
+    // ---- the checksum: every character, its length prefix
+    {
+        let (a, n) = sp[6];
+        for i in 0..n {
+            ops.push((if i == 0 || i + 1 == n { 0 } else { 1 }, json!(["x", a + i, 1])));
+            ops.push((2, json!(["x", a + i, 0x20])));
+            ops.push((2, json!(["x", a + i, 0x80])));
+        }
+        let (pa, pn) = sp[5];
+        for l in [n as u64 + 1, (n as u64).saturating_sub(1), 0, 32] {
+            ops.push((1, json!(["s", pa, pn, { "bytes": varint_vec(l) }])));
+        }
+        ops.push((1, json!(["s", a, n, { "bytes": cks.to_ascii_uppercase() }])));
+        ops.push((1, json!(["s", a, n, compute_checksum(b"")])));
+    }
+    // ---- the unprotected rest: one alteration each (accepted, different state), every truncation
+    //      at an item boundary
+    for k in [8usize, 9, 11, 12] {
+        let (a, n) = sp[k];
+        if n > 0 {
+            ops.push((1, json!(["x", a, 1])));
+        }
+    }
+    for (a, n) in &sp {
+        ops.push((1, json!(["t", a])));
+        if *n > 1 {
+            ops.push((2, json!(["t", a + n - 1])));
+        }
+    }
+    ops.push((0, json!(["t", img.len() - 1])));
+    ops
+}
+
+fn heavy_cases(seed: u64, thorough: bool) -> Vec<Prepared> {
+    let mut rng = SplitMix64::new(seed ^ 0xC12_7A3);
+    let mut out: Vec<Prepared> = Vec::new();
+    // ---- compute_checksum on long inputs: around every power of two up to 64 KiB (thorough: 1 MiB)
+    let top = if thorough { 20 } else { 16 };
+    for k in 8..=top {
+        let n = 1u64 << k;
+        let mut lens = vec![n - 1, n, n + 1];
+        if k <= 14 || thorough {
+            lens.extend([n + 55, n + 56, n + 63, n - 9, n - 8]);
+        }
+        for len in lens {
+            out.push(("sum".into(), json!(["gen", rng.next_u64() >> 34, len]), true,
+                      vec!["sum".into(), "power-of-two".into()]));
+        }
+    }
+    for len in [300u64, 1000, 4095, 5000, 10000] {
+        out.push(("sum".into(), json!(["rep", "id:", len]), true, vec!["sum".into(), "repeated".into()]));
+    }
+    // ---- tamper sweeps: id lengths across every block size up to 4 KiB (short ids included)
+    let mut lens: Vec<usize> = vec![0, 1, 2, 7, 15, 16, 17, 20, 31, 32, 33, 40, 44, 45, 46, 50, 55, 56, 57, 58, 60,
+                                    63, 64, 65, 100, 119, 120, 121, 127, 128, 129, 200, 255, 256, 257, 300, 500,
+                                    511, 512, 513, 1000, 1023, 1024, 1025, 2000, 2047, 2048, 2049, 3000, 4000,
+                                    4095, 4096];
+    if thorough {
+        lens.extend(3..=140);
+        lens.extend([8191, 8192, 8193, 16384, 65536]);
+        lens.sort_unstable();
+        lens.dedup();
+    }
+    for (i, &len) in lens.iter().enumerate() {
+        let n_tails = if thorough { 3 } else { 2 };
+        for t in 0..n_tails {
+            let nums = match t {
+                0 => TAILS[i % TAILS.len()],
+                1 => TAILS[(i + 2 + i / TAILS.len()) % TAILS.len()],
+                _ => (rng.next_u64() >> rng.below(64), rng.next_u64() >> rng.below(64), rng.next_u64() >> rng.below(64)),
+            };
+            // ids: LCG letters (':' and '_' included); every fifth one non-ASCII
+            let pseed = rng.next_u64() >> 34;
+            let (pid_spec, pid) = if i % 5 == 4 && len >= 2 {
+                let unit = if len % 3 == 0 { "日" } else { "é" };
+                let count = len / unit.len();
+                let pad = "z".repeat(len - count * unit.len());
+                let text = format!("{}{}", unit.repeat(count), pad);
+                if pad.is_empty() {
+                    (json!(["rep", unit, count]), text.into_bytes())
+                } else {
+                    (json!(text), text.into_bytes())
+                }
+            } else {
+                let v = json!(["ids", pseed, len]);
+                let b = data_of(&v).unwrap();
+                (v, b)
+            };
+            let mut meta = pid.clone();
+            meta.extend_from_slice(format!(":{}:{}:{}", nums.0, nums.1, nums.2).as_bytes());
+            let cks = compute_checksum(&meta);
+            let (em, tn, lnt, pp) = ("seq", 3u64, "Map", 50u8);
+            let all = tamper_ops(&pid, nums, cks.as_bytes(), em.as_bytes(), tn, lnt.as_bytes(), pp, thorough);
+            // what one op costs on the judging side grows with the number of SHA-256 blocks
+            let blocks = meta.len() / 64 + 1;
+            let budget = ((if thorough { 30000 } else { 7000 }) / blocks).clamp(if thorough { 300 } else { 110 }, 4000);
+            let must = all.iter().filter(|(p, _)| *p == 0).count();
+            let rest = all.len() - must;
+            let keep_rest = budget.saturating_sub(must);
+            let mut ops: Vec<Value> = Vec::new();
+            for (p, op) in all {
+                // priority 1 is twice as likely to survive as priority 2
+                let keep = p == 0 || rest <= keep_rest
+                    || rng.below((rest as u64) * 2) < (keep_rest as u64) * if p == 1 { 3 } else { 1 };
+                if keep {
+                    ops.push(op);
+                }
+            }
+            let per_case = (300 / blocks).clamp(4, 48);
+            for chunk in ops.chunks(per_case) {
+                let fields = json!([pid_spec, nums.0, nums.1, nums.2, cks, em, tn, lnt, pp]);
+                out.push(("tamper".into(), json!([fields, chunk]), true,
+                          vec!["tamper".into(), if len > 45 { "long-id".into() } else { "short-id".into() }]));
+            }
+        }
+    }
+    out
 }
 
 fn main() {
